@@ -107,9 +107,6 @@ class Facts:
         self.hir = {}
         for it in d["hir"]:
             self.hir.setdefault(it["path"], it)
-        # new helper functions are transparent in the HIR view (see inline.py)
-        import inline
-        self.inlined = inline.apply(self)
         self.mir = {}
         self.promoted = {}
         for b in d["mir"]:
@@ -117,6 +114,10 @@ class Facts:
                 self.promoted[(b["path"], b["promoted"])] = b
             else:
                 self.mir.setdefault(b["path"], b)
+        # renamed private functions get their reviewed names back; new helper functions are transparent (see inline.py)
+        import inline
+        self.renamed = inline.apply_renames(self)
+        self.inlined = inline.apply(self)
         if self.inlined is not None and self.inlined.new:
             inline.apply_mir(self, self.inlined)
 
